@@ -7,7 +7,7 @@
    [gate_run] a history of checks interleaved with Consume* calls on the processors sharing the
    limiter and MustRefuse calls of the extension; [life_run] a Start/Shutdown history.
    The limit predicates, checker constructors and Validate are Generated.MemLimiter18 (T1). *)
-From Verif Require Import Common.Base Generated.MemLimiter18 C18.Model C18.Proofs C18.ProofsShare C18.ProofsSys.
+From Verif Require Import Common.Base Generated.MemLimiter18 C18.Model C18.Proofs C18.ProofsShare C18.ProofsSys C18.ProofsFine.
 Local Open Scope Z_scope.
 
 (* Clause 1.  After EVERY check of EVERY history (any readings, any GC effects, any clock) the
@@ -198,6 +198,40 @@ Theorem sys_frozen_without_users : forall l t0 os qs,
   fst (sys_run l (sys0 t0) (os ++ qs)) = fst (sys_run l (sys0 t0) os).
 Proof. exact sys_frozen_without_users_l. Qed.
 
+(* Checks take time (fine-grained model: a check begins, is in flight while Start/Shutdown/
+   MustRefuse happen, and ends).  "... and then stops", for EVERY such schedule: once the count
+   is 0 — the last user's Shutdown has returned — no check is in flight and none can begin ... *)
+Theorem fine_stopped_after_last_shutdown : forall l t0 os,
+  let s := fst (frun l (fsys0 t0) os) in
+  refcnt (f_life s) = 0 -> f_fly s = None /\ checking (f_life s) = false.
+Proof. exact fine_stopped_l. Qed.
+
+(* ... so whatever begins/ends/queries follow, mustRefuse and lastGCDone stay as they are. *)
+Theorem fine_frozen_without_users : forall l t0 os qs,
+  refcnt (f_life (fst (frun l (fsys0 t0) os))) = 0 ->
+  (forall o, In o qs -> fpassive o = true) ->
+  fst (frun l (fsys0 t0) (os ++ qs)) = fst (frun l (fsys0 t0) os).
+Proof. exact fine_frozen_l. Qed.
+
+(* The last Shutdown waits for a check in flight: when it returns (nil) the check's result is
+   stored — the mode is the property's iff for that check — and nothing is in flight. *)
+Theorem fine_last_shutdown_completes_check : forall l s t, wf l ->
+  refcnt (f_life s) = 1 -> f_fly s = Some t ->
+  let s' := fst (fstep l s FShutdown) in
+  f_fly s' = None /\ refcnt (f_life s') = 0 /\ f_st s' = fst (check l (f_st s) t) /\
+  refuse (f_st s') = (final_reading l (f_st s) t >=? l_limit l - l_spike l) /\
+  snd (fstep l s FShutdown) = FLifeRes false (Some (refuse (f_st s'))).
+Proof. exact fine_last_shutdown_l. Qed.
+
+(* Refinement: every fine-grained schedule has the lifetime and the mustRefuse/lastGCDone state
+   of the coarse schedule in which each check takes effect where it ends (at its FEnd, or just
+   before the last Shutdown that waited for it) — so every theorem about sys_run above
+   (sys_refuse_iff_soft, sys_frozen_without_users, ...) speaks about time-consuming checks too. *)
+Theorem fine_refines_sys : forall l t0 os,
+  let c := fst (sys_run l (sys0 t0) (coarsen life0 None os)) in
+  f_life (fst (frun l (fsys0 t0) os)) = s_life c /\ f_st (fst (frun l (fsys0 t0) os)) = s_st c.
+Proof. exact (fun l t0 os => fine_refines_l l os (fsys0 t0) (fsys0_inv t0)). Qed.
+
 Print Assumptions refuse_iff_soft.
 Print Assumptions refuse_iff_soft_validated.
 Print Assumptions refuse_is_above_soft.
@@ -220,3 +254,7 @@ Print Assumptions factory_failure_not_cached.
 Print Assumptions sys_state_is_effective_history.
 Print Assumptions sys_refuse_iff_soft.
 Print Assumptions sys_frozen_without_users.
+Print Assumptions fine_stopped_after_last_shutdown.
+Print Assumptions fine_frozen_without_users.
+Print Assumptions fine_last_shutdown_completes_check.
+Print Assumptions fine_refines_sys.
